@@ -14,8 +14,14 @@ Reading of the sentence fixed here (docs/C15.md):
   `Regenerate` continues the session (data and absolute deadline) under a new id, `Reset` starts a new
   one (empty, new absolute deadline);
 * Fresh = the session's id was generated during this request;
-* domain: a Store-API handler calls `store.Get` at most once per request, and does not `Save` a
-  session it has destroyed (the oracle answers `outside-domain: …` for such a history).
+* a request may look its session up several times (`store.Get` in a guard middleware and again in the
+  handler): every lookup uses the id the server generated for this request if an earlier lookup generated
+  one (the request is "the client that was just given that id"), else the id the request presents; Fresh
+  and a (re)started absolute lifetime are reported only for an id generated during this request;
+* `Destroy`/`Reset` of a request-bound session withdraw the session cookie (header) from the request as
+  well, so later lookups of the same request no longer present it; saving a request-bound session with a
+  header source puts its id into the request header;
+* domain: a handler does not `Save` a session it has destroyed (the oracle answers `outside-domain: …`).
 -/
 namespace C15
 open B
@@ -26,8 +32,11 @@ structure SEntry where
   absDeadline : Option Nat
   deriving Repr, DecidableEq
 
-def SEntry.live (e : SEntry) (now : Nat) : Bool :=
-  decide (now < e.idleDeadline) && (match e.absDeadline with | some a => decide (now ≤ a) | none => true)
+/-- within the absolute lifetime -/
+def SEntry.absOK (e : SEntry) (now : Nat) : Bool :=
+  match e.absDeadline with | some a => decide (now ≤ a) | none => true
+
+def SEntry.live (e : SEntry) (now : Nat) : Bool := decide (now < e.idleDeadline) && e.absOK now
 
 structure SpecSt where
   now : Nat := 0
@@ -44,19 +53,28 @@ structure View where
   abs : Option Nat
   idle : Option Nat := none      -- SetIdleTimeout for the next save
   destroyed : Bool := false
+  ctx : Bool := true             -- bound to the request (`store.Get`, middleware); `GetByID` sessions are not
   deriving Repr, DecidableEq
 
 inductive SCur where
   | none | mw | other (v : View)
   deriving Repr, DecidableEq
 
+/-- what a request presents: the cookie named like the session, the header, the query parameter -/
+structure Pres where
+  ck : Bytes
+  hd : Bytes
+  qr : Bytes
+  deriving Repr, DecidableEq
+
 structure SReq where
   s : SpecSt
   gens : List Bytes              -- generator outputs of this request not yet accounted for
+  pres : Pres                    -- what the request (still) presents
+  genId : Option Bytes := none   -- the id a lookup of this request made the server generate
   mw : Option View := none
   mwDestroyed : Bool := false
   cur : SCur := .none
-  loaded : Bool := false         -- `store.Get` has been called in this request
 
 /-- observation of one request -/
 structure Obs where
@@ -72,12 +90,29 @@ structure Obs where
 def Resp.toObs (r : Resp) : Obs :=
   { acts := r.acts, outCk := r.outCk, outHd := r.outHd, gens := r.gens, keys := r.keys, status := 200 }
 
-def presentedId (cfg : Cfg) (q : Req) : Bytes :=
+def Req.pres (q : Req) : Pres := { ck := q.ck, hd := q.hd, qr := q.qr }
+
+def presentedId (cfg : Cfg) (q : Pres) : Bytes :=
   if q.ck ≠ [] then q.ck
   else match cfg.source with
     | .header => q.hd
     | .query => q.qr
     | .cookie => []
+
+/-- `Destroy` / `Reset` of a request-bound session: the request no longer presents the session cookie
+    (the header, for a header source) -/
+def withdraw (cfg : Cfg) (p : Pres) : Pres :=
+  if cfg.source = .header then { p with hd := [] } else { p with ck := [] }
+
+/-- saving a request-bound session with a header source: the request header now carries its id -/
+def represent (cfg : Cfg) (p : Pres) (id : Bytes) : Pres :=
+  if cfg.source = .header then { p with hd := id } else p
+
+/-- the id a lookup of this request uses -/
+def SReq.lookupId (cfg : Cfg) (r : SReq) : Bytes :=
+  match r.genId with
+  | some g => g
+  | none => presentedId cfg r.pres
 
 /-- a new session under the next server-generated id -/
 def freshView (cfg : Cfg) (r : SReq) : Except String (SReq × View) :=
@@ -90,13 +125,28 @@ def freshView (cfg : Cfg) (r : SReq) : Except String (SReq × View) :=
               { id := g, data := [], fresh := true,
                 abs := if cfg.abs > 0 then some (r.s.now + cfg.abs) else none })
 
-/-- load the session the request presents: last saved data if live, else a fresh one -/
-def loadView (cfg : Cfg) (r : SReq) (p : Bytes) : Except String (SReq × View) :=
+/-- a lookup of the request's session: last saved data if live, else a fresh session. An id the server
+    generated during this very request is reported Fresh and (re)starts its absolute lifetime; a live id
+    past its absolute deadline is reset (the request stops presenting it). -/
+def loadView (cfg : Cfg) (r : SReq) : Except String (SReq × View) :=
+  let p := r.lookupId cfg
+  let mine := r.genId.isSome
   match (if p = [] then none else lookup r.s.sessions p) with
   | some e =>
-    if e.live r.s.now then .ok (r, { id := p, data := e.data, fresh := false, abs := e.absDeadline })
-    else freshView cfg { r with s := { r.s with sessions := erase r.s.sessions p } }
-  | none => freshView cfg r
+    let idleOK := decide (r.s.now < e.idleDeadline)
+    if idleOK && ((mine && decide (cfg.abs > 0)) || e.absOK r.s.now) then
+      .ok (r, { id := p, data := e.data, fresh := mine,
+                abs := if mine && decide (cfg.abs > 0) then some (r.s.now + cfg.abs) else e.absDeadline })
+    else if idleOK then do
+      let (r, v) ← freshView cfg { r with s := { r.s with sessions := erase r.s.sessions p },
+                                          pres := withdraw cfg r.pres }
+      pure (r, v)
+    else do
+      let (r, v) ← freshView cfg { r with s := { r.s with sessions := erase r.s.sessions p } }
+      pure ({ r with genId := some v.id }, v)
+  | none => do
+    let (r, v) ← freshView cfg r
+    pure ({ r with genId := some v.id }, v)
 
 def SReq.view (r : SReq) : Option View :=
   match r.cur with
@@ -123,20 +173,19 @@ def sortBytes (l : List Bytes) : List Bytes :=
   l.foldr ins []
 
 /-- one handler action: check its observation, update the abstract state -/
-def specAct (cfg : Cfg) (viaMw : Bool) (q : Req) (r : SReq) (a : Act) (o : AObs) : Except String SReq :=
+def specAct (cfg : Cfg) (viaMw : Bool) (_q : Req) (r : SReq) (a : Act) (o : AObs) : Except String SReq :=
   match a with
   | .storeGet =>
     if viaMw then (if o = .err .loaded then .ok r else .error "store.Get-behind-middleware")
-    else if r.loaded then .error "outside-domain: second session load"
     else do
-      let (r, v) ← loadView cfg r (presentedId cfg q)
+      let (r, v) ← loadView cfg r
       if o ≠ .ok then throw "store.Get-failed"
-      pure { r with cur := .other v, loaded := true }
+      pure { r with cur := .other v }
   | .byID id =>
     match (if id = [] then none else lookup r.s.sessions id) with
     | some e =>
       if e.live r.s.now then
-        if o = .ok then .ok { r with cur := .other { id := id, data := e.data, fresh := false, abs := e.absDeadline } }
+        if o = .ok then .ok { r with cur := .other { id := id, data := e.data, fresh := false, abs := e.absDeadline, ctx := false } }
         else .error "GetByID-misses-live-session"
       else if o = .err .notFound then .ok { r with s := { r.s with sessions := erase r.s.sessions id } }
       else .error "GetByID-yields-expired-session"
@@ -167,7 +216,8 @@ def specAct (cfg : Cfg) (viaMw : Bool) (q : Req) (r : SReq) (a : Act) (o : AObs)
           if sortBytes ks = sortBytes (v.data.map (·.1)) then .ok r else .error "handler-sees-keys-not-last-saved"
         | _ => .error "observation-shape"
       | .destroy =>
-        let r := { r with s := { r.s with sessions := erase r.s.sessions v.id } }
+        let r := { r with s := { r.s with sessions := erase r.s.sessions v.id },
+                          pres := if v.ctx then withdraw cfg r.pres else r.pres }
         let r := r.putView { v with data := [], destroyed := true }
         .ok (if r.cur = .mw then { r with mwDestroyed := true } else r)
       | .regenerate => do
@@ -175,15 +225,17 @@ def specAct (cfg : Cfg) (viaMw : Bool) (q : Req) (r : SReq) (a : Act) (o : AObs)
         let (r, nv) ← freshView cfg r
         pure (r.putView { v with id := nv.id, fresh := true })
       | .reset => do
-        let r := { r with s := { r.s with sessions := erase r.s.sessions v.id } }
+        let r := { r with s := { r.s with sessions := erase r.s.sessions v.id },
+                          pres := if v.ctx then withdraw cfg r.pres else r.pres }
         let (r, nv) ← freshView cfg r
-        pure (r.putView nv)
+        pure (r.putView { nv with ctx := v.ctx })
       | .idle secs => .ok (r.putView { v with idle := if secs > 0 then some secs.toNat else none })
       | .save =>
         if r.cur = .mw then .ok r
         else if v.destroyed then .error "outside-domain: Save after Destroy"
         else
           let (r, v) := saveView cfg r v
+          let r := { r with pres := if v.ctx then represent cfg r.pres v.id else r.pres }
           .ok (r.putView v)
       | .release => if r.cur = .mw then .ok r else .ok { r with cur := .none }
       | _ => .error "observation-shape"
@@ -199,9 +251,9 @@ def sameSet (a b : List Bytes) : Bool := sortBytes a = sortBytes b
 
 /-- the request starts: behind the middleware the session the request presents is loaded -/
 def specStart (cfg : Cfg) (s : SpecSt) (q : Req) (gens : List Bytes) : Except String SReq :=
-  let r : SReq := { s := s, gens := gens }
+  let r : SReq := { s := s, gens := gens, pres := q.pres }
   if q.viaMw then do
-    let (r, v) ← loadView cfg r (presentedId cfg q)
+    let (r, v) ← loadView cfg r
     pure { r with mw := some v, cur := .mw }
   else pure r
 
@@ -253,27 +305,21 @@ def specRun (cfg : Cfg) : SpecSt → List Op → List (Option Obs) → Option St
 /-! ### the domain of the oracle, syntactically (see Domain.lean: inside it the oracle never answers
     `outside-domain`) -/
 
-/-- is the action allowed when `l` (= `store.Get` was already called in this request) and `d` (= `Destroy`
-    was already called in this request)? -/
-def actAllowed (viaMw l d : Bool) : Act → Bool
-  | .storeGet => viaMw || !l
+/-- is the action allowed when `d` (= `Destroy` was already called in this request)? -/
+def actAllowed (d : Bool) : Act → Bool
   | .save => !d
   | _ => true
-
-def nextL (viaMw l : Bool) : Act → Bool
-  | .storeGet => l || !viaMw
-  | _ => l
 
 def nextD (d : Bool) : Act → Bool
   | .destroy => true
   | _ => d
 
-def scriptInDomain (viaMw : Bool) : Bool → Bool → List Act → Bool
-  | _, _, [] => true
-  | l, d, a :: as => actAllowed viaMw l d a && scriptInDomain viaMw (nextL viaMw l a) (nextD d a) as
+def scriptInDomain : Bool → List Act → Bool
+  | _, [] => true
+  | d, a :: as => actAllowed d a && scriptInDomain (nextD d a) as
 
 def Op.inDomain : Op → Bool
   | .adv _ => true
-  | .req q => scriptInDomain q.viaMw false false q.script
+  | .req q => scriptInDomain false q.script
 
 end C15
